@@ -1553,9 +1553,19 @@ impl StreamingQueueCompressor {
         // Register contig in collection
         {
             let mut collection = self.collection.lock().unwrap();
-            collection
+            let newly_registered = collection
                 .register_sample_contig(&sample_name, &contig_name)
                 .context("Failed to register contig")?;
+            // A second record with the same name in the same sample has no catalogue entry of its
+            // own: its segments would be written over the first record's descriptors (a chimera
+            // of the two, or one of them lost). Refuse it instead of corrupting the archive.
+            if !newly_registered {
+                anyhow::bail!(
+                    "Duplicate contig name '{}' in sample '{}': contig names must be unique within a sample",
+                    contig_name,
+                    sample_name
+                );
+            }
         }
 
         // Set first sample as reference (multi-file mode)
